@@ -1,6 +1,7 @@
 SPECIFICATION Spec
 CONSTANTS
-  Layouts <- LayoutsThorough
-  MaxLoops = 6
+  Layouts <- LayoutsGap
+  MaxLoops = 3
   FixEndIdx = TRUE
+  FixPadding = FALSE
 INVARIANTS Served StartOK CountOK FramesOK
